@@ -230,7 +230,21 @@ def reader_items(tier):
 
 
 OPS = ("str", "repr", "serialize", "identity", "payload", "ismsm", "parse_msm", "parse_4076_201",
-       "copy", "vars", "hash", "eq", "datadesc")
+       "copy", "vars", "hash", "eq", "datadesc", "scribble")
+
+
+def _scribble(obj, depth=0):
+    """The caller changes, in place, whatever mutable object an earlier call handed out."""
+    if isinstance(obj, bytearray):
+        obj += b"\xaa\x55"
+        obj[0] ^= 0xFF
+    elif isinstance(obj, list):
+        obj.append("scribbled")
+    elif isinstance(obj, dict):
+        obj["scribbled"] = 1
+    elif isinstance(obj, tuple) and depth < 2:
+        for o in obj:
+            _scribble(o, depth + 1)
 
 
 def _apply(msg, op, payload):
@@ -270,9 +284,13 @@ def _judge_seq(name, payload, seq):
     fresh = RTCMMessage(payload=payload)
     ref_attrs, ref_ident, ref_str = R.public_attrs(fresh), fresh.identity, str(fresh)
     msg = RTCMMessage(payload=payload)
+    last = None
     for k, op in enumerate(seq):
         try:
-            _apply(msg, op, payload)
+            if op == "scribble":
+                _scribble(last)
+            else:
+                last = _apply(msg, op, payload)
         except Exception as err:  # pylint: disable=broad-except
             # only the operations C07 itself speaks about must succeed; the others (helpers,
             # hashing, comparison, copying) are history elements here and other checks' subject
@@ -305,7 +323,9 @@ def object_histories(item):
     forms, serialisation, properties, the array helpers, copying, comparison, description look-up):
     after each step serialize() is still the canonical frame, repr still evaluates to the payload,
     and the attributes are those of a freshly built message.  (E2-style exploration of the
-    method-call histories of one real object; the state is the object itself.)
+    method-call histories of one real object; the state is the object itself.)  The operation
+    'scribble' is the CALLER changing in place the mutable object the previous call returned (a
+    bytearray, list or dict), which must not reach back into the message.
     """
     import itertools  # pylint: disable=import-outside-toplevel
 
